@@ -1,7 +1,7 @@
 (* Property C01 - only statements, each closed by [exact].  (partial: see manifest.d/C01.json) *)
 From Coq Require Import ZArith List Bool String.
 Import ListNotations.
-Require Import UV.C01.Model UV.Gen.Stubs UV.C01.MachineProofs UV.C01.StubTheorems UV.C01.ArchCtxProofs UV.C01.Proofs UV.C01.ShadowProofs.
+Require Import UV.C01.Model UV.Gen.Stubs UV.C01.MachineProofs UV.C01.StubTheorems UV.C01.ArchCtxProofs UV.C01.Proofs UV.C01.ShadowProofs UV.C01.ShadowRecover.
 Local Open Scope Z_scope.
 
 (* ---- (i) the assembly stubs, as generated from arch/x86_64/*.S of the current tree ----
@@ -12,7 +12,7 @@ Local Open Scope Z_scope.
    cell at or above rsp0 + s_memfrom except the hijacked slot is unchanged.
    The contract for xmm registers is [c_call_xmm]: the C wrappers listed in hook_wrappers (generated
    from the C text) run the hook body between the generated save/restore pair of ArchCtx.v, so the
-   theorems below also rest on C01_arch_context_roundtrip_avx/_sse; the body itself - including any libc code
+   theorems below also rest on C01_arch_context_roundtrip; the body itself - including any libc code
    it reaches - may do anything to all sixteen xmm registers. *)
 
 (* every wrapper the stubs call brackets its body with the xmm0-7 pair and with errno save/restore *)
@@ -152,6 +152,25 @@ Theorem C01_checker_accepts_model : forall c, no_recover c = true ->
 Proof. exact checker_accepts_model. Qed.
 Print Assumptions C01_checker_accepts_model.
 
+(* the `recover` trigger (mcount_rstack_restore / mcount_rstack_rehook over ALL frames at the entry / exit of a
+   function): for every call tree whose hooks are -pg/fentry/dynamic entries - plain and `recover` ones in any
+   mix, nested, in tail-call chains, with unhooked activations in between - every return goes to its real
+   caller.  [Inv2]: every chain of the shadow stack has its slot holding the trampoline or the real address its
+   oldest frame saved; the innermost chain's slot holds the trampoline. *)
+Theorem C01_returns_to_real_caller_recover : forall c d s,
+  (1 <= d)%nat -> only_pg c = true -> Inv2 s -> Forall (fun f => (floc f < d)%nat) (rs s) ->
+  exists s' outs, run_ops s (full d c) = (s', outs) /\
+                  targets outs = map Some (native c) /\
+                  rs s' = rs s /\ Inv2 s' /\
+                  (forall l, (l < d)%nat -> notin l (rs s) -> mem s' l = mem s l).
+Proof. exact returns_to_real_caller_recover. Qed.
+Print Assumptions C01_returns_to_real_caller_recover.
+
+Theorem C01_program_returns_recover : forall c, only_pg c = true ->
+  exists s' outs, run_ops st0 (full 1%nat c) = (s', outs) /\ targets outs = map Some (native c) /\ rs s' = [].
+Proof. exact program_returns_recover. Qed.
+Print Assumptions C01_program_returns_recover.
+
 (* tracing is finished (finish trigger / signal in another thread) while frames are open: the exit hook
    that notices it - [exit_stop]: bookkeeping, mtd_dtor restores every slot and drops the shadow stack,
    the slot is re-read - hands back the real return address of the activation that owns slot d, also for
@@ -172,6 +191,27 @@ Theorem C01_finish_saved_ip_refuted :
 Proof. exact stop_saved_ip_is_trampoline_refuted. Qed.
 Print Assumptions C01_finish_saved_ip_refuted.
 
+(* for all thread schedules: the shadow state is per thread (mtd is thread-local, stacks are disjoint); in any
+   interleaving [sched] of (thread, operation) pairs, a thread t that performs the operations of a call tree
+   has every return go to its real caller, whatever the other threads do in between *)
+Theorem C01_threads_return_to_real_callers : forall (trees : nat -> call) (sched : list (nat * op)) (t : nat),
+  proj t sched = full 1%nat (trees t) ->
+  no_recover (trees t) = true ->
+  targets (proj t (snd (run_sched (fun _ => st0) sched))) = map Some (native (trees t)) /\
+  rs (fst (run_sched (fun _ => st0) sched) t) = [].
+Proof. exact threads_return_to_real_callers. Qed.
+Print Assumptions C01_threads_return_to_real_callers.
+
+(* --estimate-return: the model of the entry hooks in this mode (mcount_rstack_inject_return + push, no
+   hijack, no exit hook) never writes a return-address slot: EVERY call tree - any hooks, any triggers -
+   returns natively from any state of the shadow stack *)
+Theorem C01_estimate_return_is_native : forall c d s,
+  exists s' outs, run_ops_est s (full d c) = (s', outs) /\
+                  targets outs = map Some (native c) /\
+                  (forall l, (l < d)%nat -> mem s' l = mem s l).
+Proof. exact estimate_return_is_native. Qed.
+Print Assumptions C01_estimate_return_is_native.
+
 (* ---- (iii) errno ---- *)
 Theorem C01_errno_preserved : forall (A : Type) (inner : Z -> A * Z) (e : Z),
   snd (with_saved_errno inner e) = e /\ fst (with_saved_errno inner e) = fst (inner e).
@@ -179,25 +219,28 @@ Proof. intros. split; [apply errno_preserved | apply errno_result_is_inner]. Qed
 Print Assumptions C01_errno_preserved.
 
 (* ---- (iv) vector argument/return registers around the hooks (generated from mcount-support.c) ----
-   a register is ((bits 0-63, 64-127), (128-191, 192-255)); avx = the ymm state is enabled *)
-Theorem C01_arch_context_roundtrip_avx : forall (x : yfile) (c0 : Z -> Z) (clobber : yfile) (r : nat),
-  (r < 8)%nat -> arch_roundtrip_now true x c0 clobber r = x r.
-Proof. exact arch_context_roundtrip_avx. Qed.
-Print Assumptions C01_arch_context_roundtrip_avx.
+   a register is eight 64-bit words; a machine of level 0 / 1 / 2 (xmm / ymm / zmm state enabled, as detected by
+   mcount_arch_check_avx) has [visible level] = 2 / 4 / 8 of them *)
+Theorem C01_arch_context_roundtrip : forall (level : nat) (x : vfile) (c0 : Z -> Z) (clobber : vfile) (r i : nat),
+  (level <= 2)%nat -> (r < 8)%nat -> (i < visible level)%nat ->
+  arch_roundtrip_now level x c0 clobber r i = x r i.
+Proof. exact arch_context_roundtrip. Qed.
+Print Assumptions C01_arch_context_roundtrip.
 
-Theorem C01_arch_context_roundtrip_sse : forall (x : yfile) (c0 : Z -> Z) (clobber : yfile) (r : nat),
-  (r < 8)%nat -> fst (arch_roundtrip_now false x c0 clobber r) = fst (x r).
-Proof. exact arch_context_roundtrip_sse. Qed.
-Print Assumptions C01_arch_context_roundtrip_sse.
+(* the code before fix C01-6 (AVX pair on a machine with live zmm state) lost bits 256-511 *)
+Theorem C01_arch_context_avx_only_refuted :
+  exists (x : vfile) c0 clobber r i, (r < 8)%nat /\ (i < 8)%nat /\ arch_roundtrip_avx_only x c0 clobber r i <> x r i.
+Proof. exact arch_context_avx_only_refuted. Qed.
+Print Assumptions C01_arch_context_avx_only_refuted.
 
 (* the code before fix C01-5 (SSE pair on a machine with live ymm state) lost bits 128-255 *)
 Theorem C01_arch_context_sse_only_refuted :
-  exists (x : yfile) c0 clobber r, (r < 8)%nat /\ snd (arch_roundtrip_sse_only x c0 clobber r) <> snd (x r).
+  exists (x : vfile) c0 clobber r i, (r < 8)%nat /\ (i < 4)%nat /\ arch_roundtrip_sse_only x c0 clobber r i <> x r i.
 Proof. exact arch_context_sse_only_refuted. Qed.
 Print Assumptions C01_arch_context_sse_only_refuted.
 
 (* the code before fix C01-1 (movsd both ways) destroyed bits 64-127 *)
 Theorem C01_arch_context_legacy_refuted :
-  exists (x : yfile) c0 clobber r, (r < 8)%nat /\ snd (fst (arch_roundtrip_legacy x c0 clobber r)) <> snd (fst (x r)).
+  exists (x : vfile) c0 clobber r, (r < 8)%nat /\ arch_roundtrip_legacy x c0 clobber r 1%nat <> x r 1%nat.
 Proof. exact arch_context_legacy_refuted. Qed.
 Print Assumptions C01_arch_context_legacy_refuted.
